@@ -148,3 +148,35 @@ impl Rng {
 pub fn quiet_panics() {
     std::panic::set_hook(Box::new(|_| {}));
 }
+
+/// A `tracing` dispatcher that enables every call site of the library (TRACE) and writes to a sink: used
+/// with `tracing::dispatcher::with_default` to run calls the way `RUST_LOG=rs1090=DEBUG` runs them (log
+/// arguments are evaluated only when a subscriber enables the call site).
+///
+/// A second, silent dispatcher is kept alive next to it on purpose.  With exactly ONE registered
+/// dispatcher tracing-core takes a short cut when a call site is first reached: it asks the thread's
+/// *current* default for its interest and caches the answer - "never", if that first hit happens in a
+/// call made without the scoped subscriber - and the call site then stays off under the subscriber too
+/// (measured here: a first input that fails before any log line switched logging off for the whole run).
+/// With two dispatchers registered the interest is combined over both and each call asks the current one.
+pub fn trace_dispatch() -> &'static tracing::Dispatch {
+    use std::sync::OnceLock;
+    static BOTH: OnceLock<(tracing::Dispatch, tracing::Dispatch)> = OnceLock::new();
+    &BOTH
+        .get_or_init(|| {
+            let loud = tracing::Dispatch::new(
+                tracing_subscriber::fmt()
+                    .with_max_level(tracing::Level::TRACE)
+                    .with_writer(std::io::sink)
+                    .finish(),
+            );
+            let silent = tracing::Dispatch::new(
+                tracing_subscriber::fmt()
+                    .with_max_level(tracing::level_filters::LevelFilter::OFF)
+                    .with_writer(std::io::sink)
+                    .finish(),
+            );
+            (loud, silent)
+        })
+        .0
+}
